@@ -791,6 +791,24 @@ var sweepAll = func() [][][]int {
 // GenerateSweep enumerates systematically: graph (all upper-triangular DAGs with <= 4 vertices),
 // fault assignment (none, every single fault position x kind, sampled doubles), parallelism
 // (unset, 1, 2, serial). idx selects the combination; the schedule is still drawn from seed.
+// SweepSpace is the number of (graph, parallelism, single-fault) combinations of the sweep.
+func SweepSpace() int {
+	n := 0
+	for _, g := range sweepAll {
+		n += 4 * (1 + len(g)*6)
+	}
+	return n
+}
+
+// SweepCombo identifies the (graph, parallelism, single-fault) combination that idx selects.
+func SweepCombo(idx uint64) uint64 {
+	gi := idx % uint64(len(sweepAll))
+	rest := idx / uint64(len(sweepAll))
+	par := rest % 4
+	f := (rest / 4) % uint64(1+len(sweepAll[gi])*6)
+	return gi*1000 + par*100 + f
+}
+
 func GenerateSweep(idx uint64, seed uint64, o GenOpts) *Scenario {
 	r := simrt.NewRNG(seed)
 	g := sweepAll[idx%uint64(len(sweepAll))]
